@@ -140,6 +140,23 @@ theorem c_lex_suffix_no_oob (buf : Bytes) (pos : Nat) (tok : CTok) :
     (scpiLex_SuffixProgramData (st buf pos) tok).1.oob = false ∧ (scpiLex_SuffixProgramData (st buf pos) tok).1.ub = false := by
   rw [scpiLex_SuffixProgramData_ref]; exact ⟨rfl, rfl⟩
 
+/-- the helpers of the header recogniser: mnemonic (value > 0 complete, < 0 ended at the end of the input, 0 none), common and
+compound header (1 / -1 / 0) -/
+theorem c_lex_header_skips (buf : Bytes) (pos : Nat) :
+    Gen.LexerC.skipProgramMnemonic (st buf pos) = (st buf (Lexer.skipProgramMnemonic buf pos).1, (Lexer.skipProgramMnemonic buf pos).2) ∧
+    Gen.LexerC.skipCommonProgramHeader (st buf pos) =
+      (st buf (Lexer.skipCommonProgramHeader buf pos).1, (Lexer.skipCommonProgramHeader buf pos).2) ∧
+    Gen.LexerC.skipCompoundProgramHeader (st buf pos) =
+      (st buf (Lexer.skipCompoundProgramHeader buf pos).1, (Lexer.skipCompoundProgramHeader buf pos).2) :=
+  ⟨skipProgramMnemonic_ref buf pos, skipCommonProgramHeader_ref buf pos, skipCompoundProgramHeader_ref buf pos⟩
+
+theorem c_lex_programHeader (buf : Bytes) (pos : Nat) (h : pos ≤ buf.length) (tok : CTok) :
+    scpiLex_ProgramHeader (st buf pos) tok = res buf (lexProgramHeader buf pos) ∧ Agrees .header buf pos (lexProgramHeader buf pos) :=
+  ⟨scpiLex_ProgramHeader_ref buf pos tok, Props.C13.programHeader_spec buf pos h⟩
+theorem c_lex_programHeader_no_oob (buf : Bytes) (pos : Nat) (tok : CTok) :
+    (scpiLex_ProgramHeader (st buf pos) tok).1.oob = false ∧ (scpiLex_ProgramHeader (st buf pos) tok).1.ub = false := by
+  rw [scpiLex_ProgramHeader_ref]; exact ⟨rfl, rfl⟩
+
 /-! ### kernel-evaluated examples on the generated text -/
 
 -- "1.5E+3 V;" (9 bytes) at offset 0: the number is 6 bytes long, the cursor stops before the space, nothing read outside
@@ -163,5 +180,13 @@ example : scpiLex_CharacterProgramData (st [200, 97] 0) ⟨0, 0, 0⟩ = (st [200
 -- "1.5 V/" at offset 4: the buffer ends right after the '/', inside the suffix; the loop `while (skipSlashDot(state))` takes the
 -- '/', the three skips after it stop at the end of the input without reading, the next `skipSlashDot` too
 example : scpiLex_SuffixProgramData (st [49, 46, 53, 32, 86, 47] 4) ⟨0, 0, 0⟩ = (st [49, 46, 53, 32, 86, 47] 6, ⟨12, 4, 2⟩, 2) := by decide +kernel
+-- "SYST:" ends in a colon: the mnemonic behind it is empty AT the end of the input, the loop body returns SKIP_INCOMPLETE, the
+-- token is an INCOMPLETE compound header of all 5 bytes; nothing was read at offset 5
+example : scpiLex_ProgramHeader (st [83, 89, 83, 84, 58] 0) ⟨0, 0, 0⟩ = (st [83, 89, 83, 84, 58] 5, ⟨18, 0, 5⟩, 5) := by decide +kernel
+-- "*IDN" ends inside the mnemonic: (negative length) * counts as complete; "*" alone is an incomplete common header
+example : scpiLex_ProgramHeader (st [42, 73, 68, 78] 0) ⟨0, 0, 0⟩ = (st [42, 73, 68, 78] 4, ⟨19, 0, 4⟩, 4) := by decide +kernel
+example : scpiLex_ProgramHeader (st [42] 0) ⟨0, 0, 0⟩ = (st [42] 1, ⟨20, 0, 1⟩, 1) := by decide +kernel
+-- ":A:b? " : compound query header of 5 bytes
+example : scpiLex_ProgramHeader (st [58, 65, 58, 98, 63, 32] 0) ⟨0, 0, 0⟩ = (st [58, 65, 58, 98, 63, 32] 5, ⟨21, 0, 5⟩, 5) := by decide +kernel
 
 end ScpiVerif.Props.C13Gen
